@@ -17,6 +17,15 @@ CLAIMED = {
         "decides T17.1, R17.2-R17.7 on the current source; radii/mass values are 'as tabulated' (positivity only); "
         "str methods are evaluated by the checker on table keys, chmpy code is never executed",
     ),
+    "C16": (
+        "writer/reader layout agreement: f-string format-spec column maps vs reader field tables vs embedded V2000 reference; symbolic slice offsets; loop-bound dominance",
+        "clause-level static decision on the XYZ/SDF writers and readers: axis/column agreement of x,y,z, the column map "
+        "of the three SDF line writers against the reader's tables and the V2000 reference, section order and line "
+        "offsets, absence of blank sections, boundedness of index-advance loops, XYZ token order and blank-tolerant "
+        "split, dispatch maps. The property is mostly a layout statement, which is decided; numeric rounding is not.",
+        "decides R16.1-R16.5 on the current source; assumes values fit their fixed-width fields; coordinates 'to the "
+        "precision of the format' and bond perception are not decided",
+    ),
 }
 
 PENDING_REASON = "check under construction (DESIGN.md section 5); not yet claimed"
